@@ -233,6 +233,7 @@ def plumbing(program, rep):
     w = Walker(program, _D(program))
     exits = w.run(ss, sl)
     ok = bool(exits)
+    stale = None
     p = ss.params()
     for exx in exits:
         tr = exx.state.trace
@@ -244,17 +245,34 @@ def plumbing(program, rep):
                   'self._current_world.dispatch_enabled',
                   'self.current_world.dispatch_enabled')
               and norm(e.sym.node) == 'True']
-        if len(sup) != 1 or not en or en[0] < sup[0]:
+        why_stale = None
+        if len(sup) == 1 and en and en[0] > sup[0] and tr[en[0]].target.text \
+                .startswith(f'{p[1]}()'):
+            # the world is the one the handle yields AFTER Loop.switch (which
+            # may clear the handle): the call must be evaluated after it
+            fresh = any(e.kind == 'call' and e.sym.text == f'{p[1]}()'
+                        for e in tr[sup[0] + 1:en[0]])
+            if not fresh:
+                why_stale = tr[en[0]]
+        if why_stale is not None:
+            ok = False
+            stale = why_stale.node
+        elif len(sup) != 1 or not en or en[0] < sup[0]:
             ok = False
         else:
             e = tr[sup[0]]
             a = [norm(x) for x in e.sym.node.args]
             if a != p[1:4]:
                 ok = False
-    rep.check(ok, 'C13.order', ss.where, 'super().switch(...); enable',
+    rep.check(ok, 'C13.order', ss.where,
+              stale if stale is not None else 'super().switch(...); enable',
               'the adopted world is enabled (its pending load-time callbacks '
               'and on_switch_in released, in that order) after the loop has '
               'switched to it',
+              'the world that is enabled was taken from the handle BEFORE '
+              'Loop.switch ran: with clear_next the handle yields a fresh '
+              'instance afterwards, the discarded one is enabled and the '
+              'world that runs stays muted forever' if stale is not None else
               'SimpleLoop.switch does not adopt the world through '
               'Loop.switch(handle, clear_current, clear_next) and enable it '
               'afterwards: on_switch_in is never released, or released '
@@ -428,7 +446,35 @@ def instance_state(program, rep, rule):
               else ed.node.lineno)
 
 
+def handle_clear(program, rep):
+    """switch() clears handles (clear_next before on_switch_out, clear_current
+    inside the loop): that is harmless only while clear() of every in-repo
+    handle class merely drops the cache - an override that touches the cached
+    world empties the running world before on_switch_out reaches it."""
+    h = program.cls('Handle')
+    n = 0
+    for c in [h] + program.subclasses(h):
+        m = c.methods.get('clear')
+        if m is None:
+            continue
+        n += 1
+        calls = [x for x in ast.walk(m.node) if isinstance(x, ast.Call)
+                 and norm(x.func) not in ('super', 'super().clear', 'setattr',
+                                          'delattr', 'getattr', 'hasattr',
+                                          'isinstance', 'object.__setattr__')]
+        rep.check(not calls, 'C13.handle-clear', m.where,
+                  calls[0] if calls else 'clear()',
+                  'clear() only drops the cached value',
+                  f'{m.qualname} does more than dropping the cache '
+                  f'({norm(calls[0]) if calls else ""}): a restart through '
+                  'switch(current_handle, clear_next=True) wipes the running '
+                  'world before on_switch_out is dispatched in it - nobody in '
+                  'the world being left hears it', line=m.node.lineno)
+    rep.floor('C13.handle-clear', 'clear() implementations of handles', n, 1)
+
+
 def run(program, rep, tier):
+    handle_clear(program, rep)
     f, spaths, bad = analyse_switch_fn(program, rep)
     if 'order' in bad:
         node, why = bad['order']
